@@ -13,7 +13,7 @@ from . import rules_type as ty
 PROPERTIES = {
     'C08': {
         'rules': [safe.rule_inv_arith, safe.rule_inv_panic, safe.rule_inv_unsafe, safe.rule_ptr_guarded_call, safe.rule_auth_node_free, safe.rule_deque_shape,
-                  stale.rule_stale_removal, stale.rule_admit_live, must.rule_wo_node, must.rule_unlink_both, fx.rule_sketch_structure, ty.rule_type_witnesses],
+                  stale.rule_stale_removal, stale.rule_admit_live, must.rule_wo_node, must.rule_unlink_both, fx.rule_sketch_structure, adm.rule_cmp_evict, flow.rule_flow_sync, ty.rule_type_witnesses],
         'explanation': 'Discipline, not absence of every bad state: complete inventories of arithmetic asserts, panic-capable calls and unsafe code, each '
                        'discharged automatically or by one reasoned table line; unsafe impl bounds; every unsafe list operation is membership-'
                        'guarded; nodes are freed only by their owner roles, never popped in the concurrent cache; maintenance removes by identity '
@@ -33,7 +33,7 @@ PROPERTIES = {
         'does_not_decide': 'the estimates themselves (C14 numerics), the deque order (C12)',
     },
     'C12': {
-        'rules': [adm.rule_must_recency, adm.rule_cmp_admit, adm.rule_cmp_evict, adm.rule_flow_admit_sums],
+        'rules': [adm.rule_must_recency, adm.rule_cmp_admit, adm.rule_cmp_evict, adm.rule_flow_admit_sums, flow.rule_flow_sync],
         'explanation': 'Recency bookkeeping is invoked on every use (get hit, update, admission push-back); victim selection starts at the '
                        'front of probation and advances by next only; the scan and the eviction loops stop as early as allowed '
                        '(victims.weight < candidate.weight, evicted >= weights_to_evict) and remove what peek_front returned.',
@@ -101,14 +101,14 @@ PROPERTIES = {
         'does_not_decide': 'clock monotonicity; concurrent visibility',
     },
     'C07': {
-        'rules': [live.rule_guard_live_va, must.rule_must_invalidate, must.rule_auth_value, stale.rule_stale_ts, must.rule_unlink_both],
+        'rules': [live.rule_guard_live_va, must.rule_must_invalidate, must.rule_auth_value, stale.rule_stale_ts, must.rule_unlink_both, flow.rule_flow_unsync],
         'explanation': 'Every hit path of the 3 sync lookups establishes ts < valid_after == false (strict) for both timestamp stores of '
                        'the returned entry.',
         'decides': 'the watermark comparison is strict and applied by every sync lookup',
         'does_not_decide': 'per-schedule visibility between an invalidating thread and readers',
     },
     'C16': {
-        'rules': [live.rule_guard_live_all, must.rule_update_resets, ty.rule_type_iter],
+        'rules': [live.rule_guard_live_all, must.rule_update_resets, live.rule_miss_reasons, stale.rule_stale_removal, flow.rule_flow_sync, ty.rule_type_iter],
         'explanation': 'Both Iter::next implementations yield an item only on paths where the full liveness predicate of that very '
                        'item is false.',
         'decides': 'iteration never yields an expired / invalidated entry; the filter is exactly the liveness predicate',
